@@ -600,6 +600,10 @@ macro_rules! impl_exact {
             fn from<N: ToPrimitive>(n: N) -> Option<$T> {
                 // integers convert exactly; floats through their exact dyadic value
                 let f = n.to_f64()?;
+                if !f.is_finite() {
+                    // an exact scalar has no NaN or infinity: the conversion fails, as NaN -> integer does
+                    return None;
+                }
                 if let Some(i) = n.to_i64() {
                     if i as f64 == f {
                         return Some($T::int(i));
